@@ -15,6 +15,9 @@ RULE = ('corpus; exhaustive binary scope (close_holes: every binary image of eve
         'and cleared (both must agree), Bc entries other than 0/1, all-ones boxes with even sides (definition), irregular neighbourhoods '
         '(proved clamped specification); plateau images (plateaus on the border / in corners, tied plateaus, +-inf); close_holes with every '
         'Bc the wrapper accepts (None, 0-4 and 8, arrays of any shape / dtype / layout) and non-0/1 foreground values. '
+        'Size-threshold stream (tag size=threshold; quick 4, thorough 24 cases): plateaus / background regions / holes / rows whose '
+        'pixel count crosses 2^8, 2^15, 2^16 (+-1), judged by the Lean model of the kernels (linear; proved equal to the definition for '
+        'cross/box: C14_regional_eq_spec_cross_box_disk, C14_close_holes_eq_spec; the quadratic fixed-point specifications are left out there). '
         'Non-trivial = output neither all-true nor all-false; distinct = distinct protocol line + layout.')
 ASSUMPTIONS = ['no NaN (an order is taken); floats enter the Lean model through the order isomorphism '
                'x -> sign(x)*bits(|x|) onto integers (the kernels only compare values)',
@@ -69,6 +72,11 @@ def _centre_index(bshape):
     return i
 
 
+def _big(case):
+    """size-threshold cases: the driver leaves the quadratic fixed-point specifications out (the linear model is the reference)"""
+    return ' big=1' if case.get('size') == 'threshold' else ''
+
+
 def _se_args(case, dtype):
     """the Bc argument in the protocol of C01's model of `get_structuring_elem` (`arg=none | int | array`, `dt=` the dtype
     the element is cast to: the image's, bool for close_holes; no `dt` for float images: non-zero stays non-zero)"""
@@ -93,11 +101,11 @@ def _line(case):
     if op in LOC_OPS:
         data = [okey(v, dt) for v in _mk(case).ravel().tolist()]
         kind = 'loc' if op.startswith('loc') else 'reg'
-        return (f"c14 kind={kind} min={1 if op.endswith('min') else 0} shape={shape} data={gen.enc_arr(data)} "
+        return (f"c14 kind={kind} min={1 if op.endswith('min') else 0}{_big(case)} shape={shape} data={gen.enc_arr(data)} "
                 + _se_args(case, dt))
     if op == 'close_holes':
         data = [1 if v else 0 for v in case['data']]
-        return f"c14 kind=holes shape={shape} data={gen.enc_arr(data)} " + _se_args(case, 'bool')
+        return f"c14 kind=holes{_big(case)} shape={shape} data={gen.enc_arr(data)} " + _se_args(case, 'bool')
     if op == 'hitmiss':
         return (f"c14 kind=hitmiss shape={shape} data={gen.enc_arr(case['data'])} bshape={bsh} "
                 f"bc={gen.enc_arr(case['bc'])}")
@@ -149,8 +157,8 @@ def _eval_single(cases):
         if 'error' in drv:
             raise core.Infra('driver: ' + drv['error'])
         model = _bools(drv['model'])
-        spec = _bools(drv['spec'])
-        cls = _contig_class(Al)
+        spec = _bools(drv['spec']) if drv.get('spec') else model    # big=1: the model (proved = definition for cross/box)
+        cls = _contig_class(Al) if case.get('size') != 'threshold' else 'threshold'
         regular = True
         if op in LOC_OPS:
             arg = case.get('bcarg', 'array')
@@ -598,6 +606,78 @@ def _large_case(rng, which):
                 bshape=bshape, bc=bc, layout=layout, size='large')
 
 
+THRESHOLDS = [255, 256, 257, 32767, 32768, 32769, 65535, 65536, 65537]
+
+
+def _threshold_case(rng, which, N):
+    """a plateau / background region / hole / row of N (+ a little) pixels, N around 2^8, 2^15, 2^16: a counter, flat index or
+    stack index narrowed to 8 or 16 bits passes every small case and fails here"""
+    layout = rng.choice(['C', 'C', 'F', 'readonly'])
+    if which in ('reg', 'loc'):
+        dtype = rng.choice(['uint8', 'int16', 'int32', 'float32', 'float64', 'uint16'])
+        form = rng.choice(['row', 'row2', 'col2', 'rect'])
+        if form == 'row':
+            shape = [N + rng.choice([0, 1, 2])]
+        elif form == 'row2':
+            shape = [1, N + rng.choice([0, 1, 2])]
+        elif form == 'col2':
+            shape = [N + rng.choice([0, 1, 2]), 1]
+        else:
+            h = rng.choice([2, 3, 255, 256, 257]) if N > 1000 else rng.choice([2, 3, 15, 16, 17])
+            shape = [h, -(-N // h) + rng.choice([0, 1])]
+            if rng.random() < 0.5:
+                shape = shape[::-1]
+        n = int(np.prod(shape))
+        if which == 'reg':
+            data = [1] * n                                   # one plateau of n (minus a few) pixels ...
+            for _ in range(rng.choice([0, 1, 1, 2, 4])):     # ... and a few distinct pixels (first / last / index N included)
+                data[rng.choice([0, n - 1, min(n - 1, N), min(n - 1, N - 1), rng.randrange(n)])] = rng.choice([0, 2])
+            op = rng.choice(['regmax', 'regmin'])
+        else:
+            data = []
+            while len(data) < n:
+                data += [rng.choice([0, 1, 2])] * rng.choice([1, 1, 2, 300])
+            data = data[:n]
+            op = rng.choice(['locmax', 'locmin'])
+        ndim = len(shape)
+        bshape = [3] * ndim
+        if ndim == 1 or rng.random() < 0.5:
+            bc = [1 if sum(abs(i - 1) for i in idx) <= 1 else 0 for idx in np.ndindex(*bshape)]
+        else:
+            bc = [1] * (3 ** ndim)
+        return dict(op=op, dtype=dtype, shape=shape, data=data, bshape=bshape, bc=bc, layout=layout, size='threshold')
+    if which == 'holes':
+        # the image border is foreground, everything inside background: a hole of (h-2)(w-2) pixels that must be filled;
+        # with a gap in the border the flood enters and takes the same number of pixels (nothing is filled)
+        if rng.random() < 0.5:
+            h, w = 3, N + 2
+        else:
+            h = rng.choice([258, 257, 259]) if N > 1000 else rng.choice([18, 17, 10])
+            w = -(-N // (h - 2)) + 2
+        if rng.random() < 0.5:
+            h, w = w, h
+        A = np.zeros((h, w), int)
+        A[0, :] = 1; A[-1, :] = 1; A[:, 0] = 1; A[:, -1] = 1
+        if rng.random() < 0.5:
+            if rng.random() < 0.5:
+                A[rng.choice([0, h - 1]), rng.randint(1, w - 2)] = 0
+            else:
+                A[rng.randint(1, h - 2), rng.choice([0, w - 1])] = 0
+        for _ in range(rng.choice([0, 0, 3])):
+            A[rng.randint(1, h - 2), rng.randint(1, w - 2)] = 1
+        bshape, bc = rng.choice([([3, 3], CROSS), ([3, 3], BOX)])
+        return dict(op='close_holes', dtype='bool', shape=[h, w], data=[int(x) for x in A.ravel().tolist()], bshape=bshape,
+                    bc=list(bc), layout=layout, size='threshold')
+    # hitmiss on a long row
+    shape = rng.choice([[N + 2], [1, N + 2], [2, N + 1], [N + 1, 2]])
+    n = int(np.prod(shape))
+    data = [1 if rng.random() < 0.6 else 0 for _ in range(n)]
+    bshape = [rng.choice([1, 2, 3]) if m > 3 else 1 for m in shape]
+    bc = [rng.choice([1, 1, 0, 2]) for _ in range(int(np.prod(bshape)))]
+    return dict(op='hitmiss', dtype='uint8', bcdtype='uint8', shape=shape, data=data, bshape=bshape, bc=bc, layout=layout,
+                size='threshold')
+
+
 CROSS = [0, 1, 0, 1, 1, 1, 0, 1, 0]
 BOX = [1] * 9
 
@@ -664,13 +744,23 @@ def cases(rng, tier):
         out.append(_rand_plateau_case(rng))
     for i in range(dict(quick=12, thorough=90, search=30)[tier]):
         out.append(_large_case(rng, ('holes', 'reg', 'hitmiss')[i % 3]))
+    # size-threshold stream: quick one case per operation family (2^16 twice, the others drawn), thorough every threshold
+    kinds = ('reg', 'holes', 'loc', 'hitmiss')
+    if tier == 'quick':
+        ns = [rng.choice([65536, 65537]), rng.choice([65536, 65537]), rng.choice(THRESHOLDS), rng.choice(THRESHOLDS)]
+        rng.shuffle(ns)
+        for which, N in zip(kinds, ns):
+            out.append(_threshold_case(rng, which, N))
+    else:
+        for i, N in enumerate(THRESHOLDS * (3 if tier == 'thorough' else 1)):
+            out.append(_threshold_case(rng, kinds[i % 4] if tier != 'thorough' else kinds[(i + i // 9) % 4], N))
     rng.shuffle(out)     # spread the heavy exhaustive blocks over the worker chunks (deterministic: same rng)
     return corpus + out
 
 
 def shrink(case):
-    if 'block' in case:
-        return
+    if 'block' in case or case.get('size') == 'threshold':
+        return      # a size-threshold witness is only a witness at its size
     shape, data = case['shape'], case['data']
     A = np.array(data, dtype=object).reshape(shape)
     for ax in range(len(shape)):
